@@ -56,7 +56,7 @@ def _leave_loop(it, s):
 
 def run_stream(cfg, passes=1, observe=None, rng=None, record=False,
                extra_next=3, finalize_mode="eager", overshoot_steps=0,
-               protocol="next", late=0):
+               protocol="next", late=0, refinalize=False):
     """Drive one schedule to completion of `passes` adjoint calculations.
 
     observe: None | "flags" (is_exhausted/is_running before and after every
@@ -201,6 +201,18 @@ def run_stream(cfg, passes=1, observe=None, rng=None, record=False,
                     res.error = e
                     res.error_index = idx
                     break
+        if refinalize and ex.finalized and not need_fin:
+            # the idiom of the repository's own test driver: tell the
+            # schedule the step count again whenever it reports that the
+            # forward stands at the end (a legal no-op)
+            try:
+                if s.n == n_true:
+                    s.finalize(n_true)
+                    ex.evals["C10.redundant_finalize_calls"] += 1
+            except Exception as e:
+                ex.ck("C10", "redundant_finalize_is_noop", False,
+                      f"finalize({n_true}) with n == max_n == {n_true} "
+                      f"raised {e!r} after {act_str(a)}", a)
         ex.after(a, s)
         is_final = False
         if isinstance(a, EndReverse):
